@@ -272,6 +272,7 @@ class Translator:
         self.helper_ret = {}
         self.in_progress = []
         self.failed = []       # (key, error text): inside the fragment but not parseable
+        self.used_intr = []    # Coq names of the intrinsics mentioned by translated code, in order of first use
 
     # -- source structure -----------------------------------------------------------------------
     def check_dense_struct(self, toks):
@@ -899,6 +900,8 @@ class Parser:
         if cname not in tr.known:
             raise TranslateError("%s: line %d: intrinsic `%s` has no semantics in coq/Model/Intrinsics.v (add `Definition %s`)"
                                  % (self.where, self.line(), name, cname))
+        if cname not in tr.used_intr:
+            tr.used_intr.append(cname)
         allv = gvals + args
         coq = "(%s%s)" % (cname, "".join(" " + a.coq for a in allv)) if allv else cname
         return Val(coq, ret)
@@ -988,6 +991,11 @@ def gen_regs(facts, write_if_changed, GEN, REPO):
     L.append("Definition gen_reg_untranslated : list (string * string * string * string) := [\n  %s\n]." % ";\n  ".join(
         "(%s, %s, %s, %s)" % (cstr(k[0]), cstr(k[1] or "T"), cstr(k[2]), cstr(r)) for k, r in untranslated))
     L.append("Definition gen_reg_counts : Z * Z := (%d, %d).   (* (triples, translated) *)" % (len(triples), len(ok)))
+    names = list(tr.helper_order) + [tr.done[k][1] for k in tr.order]
+    L.append("\n(* unfold every generated definition and every intrinsic NAME down to the families of Model/Intrinsics.v *)")
+    L.append("Ltac unfold_gen :=\n  cbv beta iota zeta delta [\n    %s\n    %s ]." % (
+        "\n    ".join(" ".join(names[i:i + 6]) for i in range(0, len(names), 6)),
+        "\n    ".join(" ".join(tr.used_intr[i:i + 8]) for i in range(0, len(tr.used_intr), 8))))
     write_if_changed(os.path.join(GEN, "GenRegs.v"), "\n".join(L) + "\n")
 
     # ---- goals: one lemma per entry, per register ----
@@ -999,7 +1007,7 @@ def gen_regs(facts, write_if_changed, GEN, REPO):
         G.append("From Coq Require Import ZArith List.")
         G.append("From CF Require Import Model.Tables Model.Prim Model.SimdApi Model.Regs Model.Intrinsics Model.RegTable Gen.GenRegs.")
         G.append("From CF Require Import Proofs.GenRegsSpec Proofs.GenRegsLemmas.")
-        G.append("Import ListNotations.\n")
+        G.append("Import ListNotations.\nLtac unfold_gen_hook ::= unfold_gen.\n")
         names = []
         for k in ks:
             _, ty, m = k
